@@ -41,13 +41,10 @@ def const_dict(chk, tree, name, rel):
 
 
 def reflect_map_involution(chk, rid):
-    tree = module_tree(chk, "utils.py")
-    d = const_dict(chk, tree, "_op_reflect_map", "utils.py")
-    m = {}
-    for k, v in d.items():
-        if not isinstance(v, ast.Constant):
-            chk.broken("_op_reflect_map value not literal")
-        m[k] = v.value
+    from .absint import Interp
+    it = Interp(str(chk.src))
+    m = it.resolve(it.module("dep_logic.utils").ns.get("_op_reflect_map"))
+    chk.require(isinstance(m, dict) and m, "anchor dep_logic.utils:_op_reflect_map missing")
     chk.instance(rid)
     for k, v in m.items():
         if m.get(v) != k:
